@@ -360,6 +360,12 @@ void Mtz::read_history_and_batch_headers(AnyStream& stream) {
         stream.read(batch.ints.data(), int_words * 4);
         batch.floats.resize(float_words);
         stream.read(batch.floats.data(), float_words * 4);
+        if (!same_byte_order) {
+          for (int& n : batch.ints)
+            swap_four_bytes(&n);
+          for (float& f : batch.floats)
+            swap_four_bytes(&f);
+        }
         stream.read(buf, 80);
         if (ialpha4_id(buf) != ialpha4_id("BHCH"))
           fail("Missing BHCH header");
